@@ -133,7 +133,8 @@ static int dims_common(dv_t *o, int base, int alt, int altcls)
 /* rows of b/m for a one-port standard */
 static int d_brows1(fx_t *F, int v, dv_t *o)
 {
-    return v == 0 ? dims_common(o, 2, 1, X_ALT) : dims_common(o, 1, -1, 0);
+    return (v == 0 || v == VN_T16M) ? dims_common(o, 2, 1, X_ALT) :
+	dims_common(o, 1, -1, 0);
 }
 static int d_bcols1(fx_t *F, int v, dv_t *o)
 {
@@ -144,7 +145,8 @@ static int d_brows2(fx_t *F, int v, dv_t *o)
 {
     /* 1x2 calibration: 2 rows = "ports of the standard" exceeds the
        calibration; nothing is asserted on the outcome */
-    return v == 0 ? dims_common(o, 2, -1, 0) : dims_common(o, 1, 2, X_ALT);
+    return (v == 0 || v == VN_T16M) ? dims_common(o, 2, -1, 0) :
+	dims_common(o, 1, 2, X_ALT);
 }
 static int d_bcols2(fx_t *F, int v, dv_t *o)
 {
@@ -1038,6 +1040,12 @@ static fn_t c3_table[] = {
  SETTERS(VN_U16, FL_L0FAIL), SETTERS(VN_S, 0), SETTERS(VN_A5, 0),
  ADDS(0),
  ADDS(1),
+ /* T16 with an m_error model: a standard that leaves a port open is
+    refused by design, whatever its parameter is (and must leave nothing
+    behind, in particular no registered unknown) */
+ { "vnacal_new_add_single_reflect", RK_INT, CB_ONE, EM_INVAL, FL_L0FAIL, VN_T16M, t_add_single_reflect, { AB1, {"s11",d_param}, {"port",d_port1} } },
+ { "vnacal_new_add_single_reflect_m", RK_INT, CB_ONE, EM_INVAL, FL_L0FAIL, VN_T16M, t_add_single_reflect_m, { M1, {"s11",d_param}, {"port",d_port1} } },
+ { "vnacal_new_add_double_reflect_m", RK_INT, CB_ONE, EM_INVAL, 0, VN_T16M, t_add_double_reflect_m, { M2, {"s11",d_param}, {"s22",d_param}, {"port1",d_port1}, {"port2",d_port2} } },
 #define SOLVE(v, fl) { "vnacal_new_solve", RK_INT, CB_ONE, EM_DOM, FL_VNPV | (fl), v, t_new_solve, { {NULL,NULL} } }
 #define NFREE(v) { "vnacal_new_free", RK_NONE, CB_UNSPEC, 0, FL_VNPV, v, t_new_free, { {NULL,NULL} } }
  SOLVE(VN_S, 0), SOLVE(VN_A3, 0), SOLVE(VN_A5, 0), SOLVE(VN_A1, 0),
